@@ -320,7 +320,36 @@ func (r *run) callback(who string, slow bool) func(ctx context.Context, old, new
 
 // RunScenario executes sc inside a synctest bubble and checks it against the
 // reference model.
+// primeSameNamedCfgTypes runs, once per process and before the first scenario,
+// a delayed Dials over function-local config types that print exactly like the
+// simulator's (psim.SimCfg, psim.UCfg) but have NO Verify method, and enables
+// verification on them: whatever the library learns about a config type must
+// be keyed by the type, not by its printed name.
+var primeCfgOnce sync.Once
+
+func primeSameNamedCfgTypes() {
+	primeCfgOnce.Do(func() {
+		type SimCfg struct{ A, Limit int }
+		type UCfg struct{ N, Limit int }
+		ctx, cancel := context.WithCancel(context.Background())
+		defer cancel()
+		w1, w2 := &fake.Watcher{}, &fake.Watcher{}
+		d1, err1 := dials.Params[SimCfg]{DelayInitialVerification: true}.Config(ctx, &SimCfg{A: 1}, w1)
+		d2, err2 := dials.Params[UCfg]{DelayInitialVerification: true}.Config(ctx, &UCfg{N: 1}, w2)
+		if err1 != nil || err2 != nil {
+			panic(fmt.Sprintf("priming Config failed: %v %v", err1, err2))
+		}
+		if _, _, err := d1.EnableVerification(ctx); err != nil {
+			panic(fmt.Sprintf("priming EnableVerification failed: %v", err))
+		}
+		if _, _, err := d2.EnableVerification(ctx); err != nil {
+			panic(fmt.Sprintf("priming EnableVerification failed: %v", err))
+		}
+	})
+}
+
 func RunScenario(t *testing.T, sc *Scenario) (res *Result) {
+	primeSameNamedCfgTypes()
 	res = &Result{Labels: map[string]bool{}}
 	if msg := sc.validate(); msg != "" {
 		res.Malformed = msg
